@@ -34,6 +34,9 @@ macro W6() = forall v addr {par(v)} :: (v != nil && par(v) == nil) ==> (nxt(v) =
 macro W7() = forall p addr, i int {kid(p, i)} :: (0 <= i && i < klen(p)) ==> int(ifptr(kid(p, i))) < allocbound()
 macro W0() = klen(nil) == 0 && par(nil) == nil && nxt(nil) == nil && prv(nil) == nil
 macro WF() = W0() && W1() && W2() && W3() && W4() && W5() && W6() && W7()
+// WF is a global invariant: only the mutators below write the link fields (scan link-field-writers) and each
+// re-establishes it (C13), so it holds whenever no mutator is running; the safety sweep (C01) relies on it.
+globalinv WF
 
 // ---- accessors: interface contracts (all implementations are BaseNode's promoted methods) ----
 iface ast.Node.Parent
